@@ -95,6 +95,16 @@ func lossless(recs []record, allCuts bool) {
 				break
 			}
 		}
+		// records belong to whoever read them, spare capacity included
+		if len(recs) <= 64 {
+			var ms [][]byte
+			for _, r := range res[:len(recs)] {
+				ms = append(ms, r.rec.msg)
+			}
+			if d := engine.Disjoint(ms); d != "" {
+				report("lossless:records-share-memory", stream, cuts, d)
+			}
+		}
 	}
 	check(strings.NewReader(stream), nil)
 	check(&faultio.FragReader{Data: []byte(stream), MaxPerCall: 1}, []int{-1})
